@@ -47,7 +47,11 @@ Adv == l' = l + 1 /\ t' = t
 Stay == l' = l /\ t' = t
 
 \* the operation must be the one the thread is at; the clause names the mismatch
+\* (an event of a thread whose own lazy internal steps are still pending in this branch is not
+\* judged here: the branch that has taken them judges it - keeps the diagnostics meaningful)
+NoLazy == \A y \in Threads : pc[y] \notin LazyLabels
 At(labels) ==
+    /\ (th \in Threads => pc[th] \notin LazyLabels)
     /\ Check(t, l, "Protocol:unknown-thread", th \in Threads)
     /\ Check(t, l, "Protocol:" \o e.op \o "@" \o pc[th], pc[th] \in labels)
 
@@ -87,6 +91,7 @@ TEnded == /\ e.op = "ended" /\ At({"eEnd"})
           /\ Check(t, l, "Plan", e.how = plan[th][k[th]])
           /\ StepOf(th) /\ Adv
 ReaderView == /\ Check(t, l, "ReaderSnapshot", rver[th].id # 0 /\ e.vid = rver[th].id /\ e.c = rver[th].content /\ e.cb = rver[th].content)
+              /\ (NoLazy \/ (e.peek = published /\ e.peekb = published))
               /\ Check(t, l, "PublishedIsCommitted", e.peek = published /\ e.peekb = published)
 TROpen == /\ e.op = "ropen" /\ At({"rOpen"}) /\ ReaderView /\ StepOf(th) /\ Adv
 TRRead == /\ e.op = "rread" /\ At({"rRead"}) /\ ReaderView /\ StepOf(th) /\ Adv
